@@ -20,6 +20,7 @@ ASSUMPTIONS = ["no code outside the analysed crate mutates the tracker's stores"
 
 
 def run(ctx):
+    _wiring(ctx)
     ctx.rule('R03.1', 'store-accessor wiring of TrackerAPI defaults and of the four impls')
     ctx.floor('R03.1', T.rule_accessor_wiring(ctx, 'R03.1'), 28)
     ctx.rule('R03.2', 'expiry predicate (strict) and continuation predicate (non-strict, absolute gap) are complementary')
@@ -40,5 +41,15 @@ def run(ctx):
     ctx.floor('R03.6', T.rule_length_step(ctx, 'R03.6'), 4)
     ctx.rule('R03.7', 'only Ok(Wasted) ids are fetched')
     ctx.floor('R03.7', T.rule_only_expired_migrate(ctx, 'R03.7'), 2)
+    import metriclib
+    ctx.rule('R03.10', 'records of handed-out (wasted) tracks copy id / epoch / scene / length / boxes from the track')
+    ctx.floor('R03.10', metriclib.rule_wasted_conversions(ctx, 'R03.10'), 17)
     ctx.rule('R03.8', 'idle lookup: same scene, not updated in the current epoch of its own scene')
     ctx.floor('R03.8', T.rule_idle_lookup(ctx, 'R03.8'), 4)
+
+
+def _wiring(ctx):
+    """name-agreement wiring of the configuration values this property depends on (rules/wiring.py)"""
+    import wiring
+    ctx.rule('R03.9', 'configuration plumbing: same-named fields / parameters / setters / call arguments are not crossed')
+    ctx.floor('R03.9', wiring.run(ctx, 'R03.9', {'max_idle_epochs', 'history_length', 'epoch_db', 'scene_id', 'epoch'}), 37)
